@@ -13,16 +13,11 @@ fn dbs() -> Arc<Databases> {
 }
 fn main() {
     let dbs = dbs();
-    let db = Database::new("d".into(), DatabaseMataData::new(1, ConsensuStrategy::Arbiter));
+    // what a restart leaves when only `b` (id 2) had been snapshotted: $admin:0, b:2
+    dbs.add_database(Database::new("b".into(), DatabaseMataData::new(2, ConsensuStrategy::None)));
     let (client, _rx) = Client::new_empty_and_receiver();
-    db.register_arbiter(&client);
-    println!("{:?}", set_key_value("k".into(), "a".into(), -1, &db, &dbs));
-    println!("{:?}", set_key_value("k".into(), "b".into(), 5, &db, &dbs));
-    println!("{:?}", set_key_value("k".into(), "c".into(), 1, &db, &dbs)); // conflict
-    let keys = db.list_keys(&"$conflicts".to_string(), true);
-    println!("conflict keys {:?}  k={:?}", keys, db.get_value("k".into()));
-    for k in keys { println!("remove {} -> {:?}", k, remove_key(&k, &db)); }
-    println!("now a second conflicting write:");
-    let r = std::panic::catch_unwind(std::panic::AssertUnwindSafe(|| set_key_value("k".into(), "d".into(), 1, &db, &dbs)));
-    println!("{:?}", r.map_err(|_| "PANIC"));
+    println!("{:?}", create_db(&"c".to_string(), &"tok".to_string(), &dbs, &client, ConsensuStrategy::None));
+    let m = dbs.map.read().unwrap();
+    for (n, d) in m.iter() { println!("{} -> id {}", n, d.metadata.id); }
+    println!("id_name_db_map: {:?}", dbs.id_name_db_map.read().unwrap());
 }
